@@ -146,6 +146,23 @@ mod rpc_half {
         pub fn gen(&mut self, opts: &Opts, rng: &mut StdRng) -> Vec<Value> {
             let count = if opts.thorough { 800 } else { 48 };
             let mut ops = vec![];
+            // directed: a long idle period (every server-side stream has had time to do whatever it does when idle), then
+            // as many calls as the protocol allows at once: the limiter's window bound must hold for the burst
+            for inflight in [hook::INFLIGHT_PING as u64, hook::INFLIGHT_CONSENSUS as u64, hook::INFLIGHT_GET_BLOCK as u64] {
+                for (burst, refresh) in [(1u64, 100_000_000u64), (3, 10_000_000), (4, 1_000_000_000)] {
+                    let idle = refresh * (burst + inflight + 1);
+                    ops.push(json!({"op": "rpc", "inflight": inflight, "burst": burst, "refresh_ns": refresh, "client_streams": 16,
+                        "hold_handlers": false, "hold_requests": false, "hold_opens": false,
+                        "steps": [{"adv": idle}, {"adv": 0}, {"adv": refresh / 2}, {"adv": idle}, {"adv": 0}], "reset": true}));
+                    ops.push(json!({"op": "rpc", "inflight": inflight, "burst": burst, "refresh_ns": refresh, "client_streams": inflight + 2,
+                        "hold_handlers": false, "hold_requests": true, "hold_opens": false,
+                        "steps": [{"adv": idle}, {"rel_r": inflight + 1}, {"adv": 0}, {"adv": idle}, {"rel_r": inflight + 1}, {"adv": 0}], "reset": true}));
+                    // the client opens nothing while the connection is idle, then opens everything it may
+                    ops.push(json!({"op": "rpc", "inflight": inflight, "burst": burst, "refresh_ns": refresh, "client_streams": inflight + 2,
+                        "hold_handlers": false, "hold_requests": false, "hold_opens": true,
+                        "steps": [{"adv": idle}, {"rel_o": burst + inflight + 2}, {"adv": 0}, {"adv": idle}, {"rel_o": burst + inflight + 2}, {"adv": 0}], "reset": true}));
+                }
+            }
             for i in 0..count {
                 // the in-flight limits of the shipped RPCs (ping / consensus / get_block)
                 let inflight = *[hook::INFLIGHT_PING as u64, hook::INFLIGHT_CONSENSUS as u64, hook::INFLIGHT_GET_BLOCK as u64]
@@ -544,6 +561,46 @@ fn small_rate(rng: &mut StdRng) -> (u64, u64) {
         _ => rng.gen_range(1..=20),
     };
     (burst, refresh)
+}
+
+/// family: an OLD limiter — the clock is far ahead of the limiter's creation (around 2^31 and 2^32 refresh periods, where
+/// a 32-bit tick counter or multiplier would saturate or wrap); the refill arithmetic must be the same as on day one
+fn fam_old_limiter(rng: &mut StdRng) -> Vec<Value> {
+    let burst = rng.gen_range(1..=4u64);
+    let refresh = *[1u64, 3, 7, 1000].choose(rng).unwrap();
+    let mut b = Builder::ns(burst, refresh);
+    let periods: u64 = match rng.gen_range(0..5) {
+        0 => (1 << 31) - 3,
+        1 => (1 << 31) + rng.gen_range(0..5),
+        2 => (1 << 32) + rng.gen_range(0..5),
+        3 => (1 << 31) * 3 + 1,
+        _ => (1 << 33) + 17,
+    };
+    // optionally some use on day one
+    if rng.gen_bool(0.5) {
+        let (id, ok) = b.acquire(burst);
+        if ok {
+            b.drop_(id);
+        }
+    }
+    b.advance(periods * refresh + rng.gen_range(0..refresh));
+    // drain the burst, then ask for more than one refill period delivers: the waits must be real
+    for _ in 0..(burst + 6) {
+        let (id, ok) = b.acquire(1);
+        if ok {
+            b.drop_(id);
+        } else {
+            if rng.gen_bool(0.5) {
+                b.advance_to_boundary(-1);
+                b.poll(id);
+            }
+            b.advance_to_boundary(0);
+            if b.poll(id) {
+                b.drop_(id);
+            }
+        }
+    }
+    b.epilogue()
 }
 
 /// family a: random interleaving of all operations
@@ -952,6 +1009,8 @@ impl Prop for C15 {
                 8 => {
                     if i % 50 == 8 {
                         fam_extreme(&mut rng)
+                    } else if i % 50 == 18 || i % 50 == 38 {
+                        fam_old_limiter(&mut rng)
                     } else {
                         fam_random(&mut rng, 25)
                     }
